@@ -953,7 +953,7 @@ func runFraming(h *H, cuts bool) {
 			// forms the server itself accepts as a literal header (with and without SP before CRLF):
 			// the announced octets are command-like and must not be executed
 			octets := "Z7 DELETE Victim\r\nZ8 CREATE fromoctets\r\n"
-			for _, nm := range []string{"NOOP", "FROB", "DELETE box", "SELECT (", "CREATE \"a\"", "UID", "UID FROB", "UID FETCH", "uid", "STARTTLS", "LOGOUT x", "IDLE x", "ENABLE", "AUTHENTICATE"} {
+			for _, nm := range []string{"NOOP", "FROB", "DELETE box", "SELECT (", "CREATE \"a\"", "UID", "UID FROB", "uid", "STARTTLS", "LOGOUT x", "IDLE x", "ENABLE", "AUTHENTICATE"} {
 				for _, hdr := range []string{"{%d+}", "{%d+} ", "x{%d+} ", "{0%d+} "} {
 					cmds := []fCmd{login(), {Tag: newTag(), Name: nm, Trailer: " " + fmt.Sprintf(hdr, len(octets)), After: octets}, {Tag: newTag(), Name: "NOOP"}}
 					runCmds(cmds, litPlus, false, "nonsync-header-in-discarded-line")
